@@ -70,6 +70,23 @@ Valid == StructValidCore(F.n) /\ (~F.eo => NoAdjacentText(F.n))
 RefusalsAreStutters ==
     \A e \in Calls : \A o \in EnumAllowed(e, F.n, F.cons) : o.res # "ok" => o.n = F.n
 
+\* Frame property of L1 itself (the "no other node is created, lost, reordered or altered" clause of C05): whatever a
+\* call does, the only old nodes whose record may change are the arguments, their subtrees, their parents (old and new)
+\* and the normal siblings next to an argument's old or new position (text merges).
+Near(N, x) ==
+    IF x = 0 THEN {} ELSE
+    {x, N[x].p} \cup Subtree(N, x) \cup {PrevNorm(N, x), NextNorm(N, x)}
+    \cup (IF N[x].k \in {"doc", "elem"} /\ NormKids(N, x) # <<>>
+          THEN {NormKids(N, x)[1], NormKids(N, x)[Len(NormKids(N, x))]} ELSE {})
+Footprint(e, N) ==
+    LET x == A1(e)  y == A2(e) IN
+    (Near(N, x) \cup Near(N, y)
+     \cup (IF x # 0 /\ N[x].p # 0 THEN Near(N, N[x].p) ELSE {})          \* element_unwrap / replace: junctions at the parent
+     \cup (IF y # 0 /\ N[y].p # 0 THEN {N[y].p} ELSE {})) \ {0}
+FrameHolds ==
+    \A e \in Calls : \A o \in EnumAllowed(e, F.n, F.cons) :
+        {z \in 1..Len(F.n) : z <= Len(o.n) /\ o.n[z] # F.n[z]} \subseteq Footprint(e, F.n)
+
 \* every call has at least one allowed outcome (L1 is total)
 Total == \A e \in Calls : EnumAllowed(e, F.n, F.cons) # {}
 
